@@ -43,16 +43,28 @@ def differential(tier, seed):
     from contracts import c18
     from zorg.service.file_groups import expand_file_group_paths
 
+    from freezegun import freeze_time
+
     rng = random.Random(seed)
     n = 400 if tier == "quick" else 4000
     fails, nontrivial, samples = [], set(), []
-    today = dt.date.today()
-    for _ in range(n):
+    # the calendar day advances during the run ("on any day"): consecutive cases run on different frozen days
+    days = [dt.date(2024, 2, 29), dt.date(2024, 3, 1), dt.date(2024, 3, 22), dt.date(2025, 1, 3), dt.date(2023, 12, 31)]
+    for i in range(n):
+        today = days[i % len(days)]
+        with freeze_time(today.isoformat() + " 12:00:00"):
+            _one_case(rng, today, fails, nontrivial, samples)
+    return {"name": "expand_vs_spec", "bound": f"{n} random acyclic group maps (<= 5 groups, <= 4 members, nesting, shared sub-groups, date patterns) x argument lists <= 5, the frozen calendar day changing between consecutive cases; real expand_file_group_paths vs natively executed spec flat()",
+            "evaluations": n, "distinct_nontrivial": len(nontrivial), "failures": fails, "samples": samples, "replay_fn": "replay_case"}
+
+
+def _one_case(rng, today, fails, nontrivial, samples):
+    for _ in range(1):
         gmap = _rand_map(rng, rng.randint(1, 5), rng.randint(0, 4))
         args = []
         for _ in range(rng.randint(0, 5)):
             args.append(rng.choice(["@" + g for g in gmap] + ["p.zo", "q/r.zo", "@g0"]))
-        case = {"args": args, "gmap": gmap}
+        case = {"args": args, "gmap": gmap, "day": today.isoformat()}
         ok, obs = replay_case(case, today)
         exp = obs.get("expected")
         if exp is not None and any(a.startswith("@") for a in args) and len(exp) > 1:
@@ -61,8 +73,6 @@ def differential(tier, seed):
             fails.append(case)
         if len(samples) < 3:
             samples.append({"args": args, "gmap": gmap, "expanded": [str(p) for p in (exp or [])][:8]})
-    return {"name": "expand_vs_spec", "bound": f"{n} random acyclic group maps (<= 5 groups, <= 4 members, nesting, date patterns) x argument lists <= 5; real expand_file_group_paths vs natively executed spec flat()",
-            "evaluations": n, "distinct_nontrivial": len(nontrivial), "failures": fails, "samples": samples, "replay_fn": "replay_case"}
 
 
 def replay_case(case, today=None):
@@ -70,7 +80,18 @@ def replay_case(case, today=None):
     from zorg.service.file_groups import expand_file_group_paths
 
     ret_dict = today is not None
-    today = today or dt.date.today()
+    if today is None:
+        from freezegun import freeze_time
+
+        day = dt.date.fromisoformat(case.get("day", dt.date.today().isoformat()))
+        # a stale cache only shows after a previous expansion on another day in the same process
+        with freeze_time("2020-01-01 12:00:00"):
+            try:
+                expand_file_group_paths([Path(a) for a in case["args"]], file_group_map=case["gmap"])
+            except Exception:
+                pass
+        with freeze_time(day.isoformat() + " 12:00:00"):
+            return replay_case(case, day)[0], "see case"
     args, gmap = case["args"], case["gmap"]
     try:
         exp = c18.flat([Path(a) for a in args], gmap, today)
